@@ -14,7 +14,7 @@ MANIFEST = dict(
     text="PARTIAL: machine-checked for the affine family, oracle-only for the rest. SOURCE TIE for the primitives: "
          "rescale_zero_to_one, rescale_minus_one_to_one and their inverses are translated from the current source on every run "
          "(harness/pylog2lean.py -> Gen/RescaleTx.lean) and rescale_primitives_source_eq_model re-proves them equal to the "
-         "model's primitives for every field and argument. "
+         "model's primitives for every field and argument; determine_rescaled_bounds (prime-prior bounds: every branch on inversion and edge, offset, rescale bounds, both ValueErrors) is translated in continuation style and determine_rescaled_bounds_source_eq_model re-proves it equal to determineRescaledBounds. "
          "Lean theorems (%d, any linearly ordered field, hence Q and R) about an executable model of ScaleAndShift/Rescale, "
          "RescaleToBounds (rescale_bounds, offset, update_bounds, pre/post hooks as parameters, boundary inversion "
          "lower/upper/both/none x split/duplicate with sign bit and edge decision as inputs), rescale_zero_to_one / "
@@ -66,16 +66,32 @@ def gen(ctx):
             lean, info = P.translate_fn(core.REPO, sp)
             parts.append(lean)
             infos[f] = info
+        sp = P.CpsSpec(
+            source="nessai/utils/rescaling.py", func="determine_rescaled_bounds", name="determine_rescaled_bounds",
+            params=[("prior_min", "(prior_min : K)", P.LIN), ("prior_max", "(prior_max : K)", P.LIN), ("x_min", "(x_min : K)", P.LIN),
+                    ("x_max", "(x_max : K)", P.LIN), ("invert", "(invert : Edge)", "OTHER"), ("inversion", "(inversion : Bool)", "BOOL"),
+                    ("offset", "(offset : K)", P.LIN), ("rescale_bounds", "(r0 r1 : K)", "OTHER")],
+            conds={"x_min == x_max": "x_min = x_max", "not inversion": "inversion = false",
+                   "invert": "(invert ≠ Edge.unset ∧ invert ≠ Edge.off)",
+                   "not invert or invert is None": "(invert = Edge.unset ∨ invert = Edge.off)",
+                   "invert == 'upper'": "invert = Edge.upper", "invert == 'lower'": "invert = Edge.lower",
+                   "invert == 'both'": "invert = Edge.both"},
+            atoms={"rescale_bounds[0]": "r0", "rescale_bounds[1]": "r1"},
+            doc="`invert`: None / False / 'lower' / 'upper' / 'both' / any other string (`Edge`); `none` = ValueError")
+        lean, info = P.translate_cps(core.REPO, sp)
+        parts.append(lean)
+        infos["determine_rescaled_bounds"] = info
     except py2lean.TranslationError as e:
         ctx.broken(f"translator: {e}", "Gen/RescaleTx.lean was left as it was (the theorem is about the last translatable source)")
         return
     except (OSError, SyntaxError) as e:
         ctx.broken(f"translator: cannot read/parse the source: {e}")
         return
-    text = ("/-\nGENERATED by harness/pylog2lean.py (harness/c07.py gen) from the CURRENT nessai source — do not edit.\n"
+    text = ("import NessaiVerif.Model.Reparam\n"
+            "/-\nGENERATED by harness/pylog2lean.py (harness/c07.py gen) from the CURRENT nessai source — do not edit.\n"
             "C07: affine rescaling primitives of nessai/utils/rescaling.py.\n-/\n"
-            "namespace NessaiVerif.Gen.RescaleTx\n\n"
-            "variable {K : Type} [Add K] [Sub K] [Mul K] [Div K] [Neg K] [OfNat K 0] [OfNat K 1] [NatCast K]\n\n"
+            "namespace NessaiVerif.Gen.RescaleTx\nopen NessaiVerif.Reparam\n\n"
+            "variable {K : Type} [Add K] [Sub K] [Mul K] [Div K] [Neg K] [OfNat K 0] [OfNat K 1] [NatCast K] [DecidableEq K]\n\n"
             + "\n".join(parts) + "\nend NessaiVerif.Gen.RescaleTx\n")
     rewritten = py2lean.write_if_changed(core.LEAN / "NessaiVerif" / "Gen" / "RescaleTx.lean", text)
     ctx.extra["generated"] = dict(infos, rewritten=rewritten)
